@@ -84,10 +84,12 @@ func (f *fAdapterTransport) Open() error {
 }
 
 func (f *fAdapterTransport) readLoop() {
+	defer verifYield("adapter.readloop.exit", 0)
 	framedTransport := NewTFramedTransport(f.transport)
 	for {
 		frame, err := f.readFrame(framedTransport)
 		if err != nil {
+			verifYield("adapter.readloop.onerror", 0)
 			// First check if the transport was closed.
 			select {
 			case <-f.closeSignal:
@@ -149,6 +151,7 @@ func (f *fAdapterTransport) close(cause error) error {
 		return thrift.NewTTransportException(TRANSPORT_EXCEPTION_NOT_OPEN, "Transport not open")
 	}
 
+	verifYield("adapter.close.presignal", 0)
 	f.closeSignal <- struct{}{}
 	if err := f.transport.Close(); err != nil {
 		// Close failed, drain close signal.
